@@ -14,12 +14,14 @@ from harness.C31 import gsleep
 from harness.C43 import LOCKMODS, ThreadSource
 
 ONE_S = _dt.timedelta(seconds=1)
+TWO_S = _dt.timedelta(seconds=2)
 COUNT = 2
 OPS = {
     "window_with_time_or_count": lambda sch: ops.window_with_time_or_count(ONE_S, COUNT, scheduler=sch),
     "buffer_with_time_or_count": lambda sch: ops.buffer_with_time_or_count(ONE_S, COUNT, scheduler=sch),
     "window_with_time": lambda sch: ops.window_with_time(ONE_S, scheduler=sch),
     "buffer_with_time": lambda sch: ops.buffer_with_time(ONE_S, scheduler=sch),
+    "window_with_time_overlap": lambda sch: ops.window_with_time(TWO_S, ONE_S, scheduler=sch),  # windows of 2 s opened every 1 s
 }
 # source programs: ("N", v) emit, ("S", seconds) the source thread sleeps, ("C",) complete
 PROGS = {
@@ -43,6 +45,12 @@ def run_once(inst, preempts):
             pass
         sch = T()
         wins, bad, term = [], [], {}
+        seq = [0]
+        arrivals = []
+
+        def tick():
+            seq[0] += 1
+            return seq[0]
         is_buffer = name.startswith("buffer")
 
         def slow_consumer():
@@ -51,10 +59,13 @@ def run_once(inst, preempts):
                 g.yield_point(idx, "downstream")
 
         def on_window(w):
-            rec = {"open": gate.Clock.t, "items": [], "closed": None}
+            rec = {"open": gate.Clock.t, "items": [], "closed": None, "open_tick": tick(), "close_tick": None}
             wins.append(rec)
-            w.subscribe(lambda v: (rec["items"].append(v), slow_consumer()), lambda e: rec.__setitem__("closed", gate.Clock.t),
-                        lambda: rec.__setitem__("closed", gate.Clock.t))
+
+            def closed(*_):
+                rec["closed"] = gate.Clock.t
+                rec["close_tick"] = tick()
+            w.subscribe(lambda v: (rec["items"].append(v), slow_consumer()), closed, closed)
 
         last = [0.0]
 
@@ -68,7 +79,9 @@ def run_once(inst, preempts):
         def producer():
             for step in PROGS[inst["prog"]]:
                 if step[0] == "N":
+                    t0 = tick()
                     src.obs.on_next(step[1])
+                    arrivals.append((step[1], t0, tick()))
                 elif step[0] == "S":
                     gsleep(step[1])
                 else:
@@ -81,8 +94,18 @@ def run_once(inst, preempts):
         ok = r in ("done", "deadlock", "maxsteps") and g.done[0] and not g.errors
         sent = [s[1] for s in PROGS[inst["prog"]] if s[0] == "N"]
         got = [v for w in wins for v in w["items"]]
-        if got != sent:
+        overlap = "overlap" in name
+        if not overlap and got != sent:
             ok = False  # every element in exactly one window, in order
+        if not is_buffer:
+            # a window that was open during the whole delivery of an element contains it (overlapping windows: each of them)
+            for x, t0, t1 in arrivals:
+                for w in wins:
+                    if w["open_tick"] < t0 and (w["close_tick"] is None or w["close_tick"] > t1) and x not in w["items"]:
+                        ok = False
+            for w in wins:
+                if w["items"] != [x for x in sent if x in w["items"]]:
+                    ok = False  # order inside a window
         for w in wins:
             full = "count" in name and len(w["items"]) >= COUNT
             if "count" in name and len(w["items"]) > COUNT:
@@ -90,7 +113,7 @@ def run_once(inst, preempts):
             if w["closed"] is None:
                 continue
             by_source = "t" in term and w["closed"] >= term["t"]
-            if not full and not by_source and w["closed"] - w["open"] < 1.0:
+            if not full and not by_source and w["closed"] - w["open"] < (2.0 if overlap else 1.0):
                 ok = False  # closed although neither its count was reached nor its timespan had elapsed
         if not ok and __import__("os").environ.get("VERIF_DEBUG"):
             print("DEBUG", r, g.errors, wins, term, file=__import__("sys").stderr)
